@@ -35,7 +35,7 @@ S0 = world.tosec("2020-01-01T00:00:00")
 DT = 600
 DIRS = [(1, 0), (-1, 0), (0, 1), (0, -1), (1, 1), (-1, 1), (1, -1), (-1, -1)]
 SPEEDS = [0.5, 0.9, 1.5, 3.0]
-SUBGRIDS = [None, [2, 8, 2, 7], [1, 6, 1, 5], [4, 9, 3, 8]]
+SUBGRIDS = [None, [1, 7, 4, 9], [5, 10, 1, 6], [2, 8, 2, 7], [1, 6, 1, 5], [4, 9, 3, 8]]  # incl. j0 >= i0+2 and i0 >= j0+2
 
 
 class OutOfBounds(IndexError):
@@ -79,7 +79,7 @@ def install(mode):
 
 
 def bounds(tier, seed):
-    return dict(dirs=8, speeds=SPEEDS, schemes=["EF", "RK2", "RK4"], subgrids=SUBGRIDS if tier == "thorough" else SUBGRIDS[:2] + [SUBGRIDS[2 + seed % 2]],
+    return dict(dirs=8, speeds=SPEEDS, schemes=["EF", "RK2", "RK4"], subgrids=SUBGRIDS if tier == "thorough" else SUBGRIDS[:3] + [SUBGRIDS[3 + seed % 3]],
                 vertical=["off", "advection+diffusion"], kicks=["none", "big"], kernel_lattice=0.01)
 
 
